@@ -367,6 +367,65 @@ theorem partition_invariance_intermediate_partial_any_variant (v : Variant) (sp0
   rw [hc]
   exact partition_invariance_intermediate_partial sp0 cap hs its h r hr ns hOK hne hpart sched hsched τ hτ
 
+/-! ### concurrent delivery: every interleaving of atomic `handleResponse` steps -/
+
+/-- `k` pool workers, worker `i` hands over response `rs[i]`; `handleResponse` is ONE critical
+section under `ctx.mutex` (regenerated fact `handleResponseAtomic`), so an execution is the order
+`sched` in which the workers get the mutex -/
+def runSchedule (v : Variant) (c : Ctx) (rs : List Resp) (sched : List Nat) : Ctx :=
+  sched.foldl (fun c i => match rs[i]? with | some r => c.handle v r | none => c) c
+
+theorem filterMap_getElem_range {α : Type} (l : List α) :
+    (List.range l.length).filterMap (fun i => l[i]?) = l := by
+  induction l with
+  | nil => rfl
+  | cons x xs ih =>
+    rw [List.length_cons, List.range_succ_eq_map, List.filterMap_cons]
+    have : ((fun i => (x :: xs)[i]?) ∘ Nat.succ) = fun i => xs[i]? := by
+      funext i; simp
+    simp only [List.getElem?_cons_zero, List.filterMap_map, this, ih]
+
+theorem runSchedule_eq (v : Variant) (c : Ctx) (rs : List Resp) (sched : List Nat) :
+    runSchedule v c rs sched = c.handleAll v (sched.filterMap (fun i => rs[i]?)) := by
+  induction sched generalizing c with
+  | nil => rfl
+  | cons i sched ih =>
+    simp only [runSchedule, List.foldl_cons, List.filterMap_cons]
+    cases h : rs[i]? with
+    | none => exact ih c
+    | some r => simp only [Ctx.handleAll, List.foldl_cons]; exact ih _
+
+/-- **partition_invariance for concurrent delivery**: whatever order the workers get the mutex in
+(every interleaving of the atomic `handleResponse` steps = every schedule `sched` that runs each
+worker once), the root ends as in `partition_invariance_partial`. -/
+theorem partition_invariance_concurrent_partial (sp0 : List Spec) (cap : Nat) (hs : Simple sp0) (its : List TS)
+    (ns : List Node) (hOK : ∀ L ∈ leavesOf ns, L.OK sp0) (hne : leavesOf ns ≠ [])
+    (hpart : ((leavesOf ns).flatMap (·.its)).Perm its)
+    (sched : List Nat) (hsched : sched.Perm (List.range ns.length)) :
+    let c := runSchedule .code (Ctx.new ns.length) (ns.map (Node.resp cap)) sched
+    c.done = true ∧ c.err = none ∧ c.hdrCap = cap ∧ ∃ A, c.agg = some A ∧ IsNaive sp0 cap its A := by
+  intro c
+  -- the schedule delivers a permutation of the nodes
+  let ns' := sched.filterMap (fun i => ns[i]?)
+  have hperm : ns'.Perm ns := by
+    have h1 : ns'.Perm ((List.range ns.length).filterMap (fun i => ns[i]?)) := hsched.filterMap _
+    rw [filterMap_getElem_range] at h1; exact h1
+  have hresp : sched.filterMap (fun i => (ns.map (Node.resp cap))[i]?) = ns'.map (Node.resp cap) := by
+    show _ = (sched.filterMap (fun i => ns[i]?)).map (Node.resp cap)
+    rw [List.map_filterMap]
+    apply List.filterMap_congr
+    intro i _
+    simp [List.getElem?_map]
+  have hc : c = (Ctx.new ns'.length).handleAll .code (ns'.map (Node.resp cap)) := by
+    show runSchedule .code (Ctx.new ns.length) _ sched = _
+    rw [runSchedule_eq, hresp, hperm.length_eq]
+  rw [hc]
+  have hl := leavesOf_perm hperm
+  exact partition_invariance_partial sp0 cap hs its ns'
+    (fun L hL => hOK L (hl.mem_iff.mp hL))
+    (by intro e; rw [e] at hl; exact hne (List.perm_nil.mp hl.symm))
+    ((hl.flatMap_right _).trans hpart)
+
 /-! ## 3. not-found tolerance and nodes without data -/
 
 /-- **notfound_tolerance**, stated outright (both variants, no hypothesis on specs): if no response
@@ -959,6 +1018,12 @@ theorem generated_first_response_rule :
     aggregatorCreatedOnce = true ∧ skipsFieldWithoutAggregator = true ∧ skipsSeriesWithoutFields = true ∧
     ((groupAggCalls = ["Aggregate"] ∧ mergesLaterSpecs = false) ∨
      (groupAggCalls = ["AddSpecs", "Aggregate"] ∧ mergesLaterSpecs = true)) := by decide
+
+open LinVerif.Generated.C12 in
+/-- `handleResponse` is one critical section: nothing runs before `ctx.mutex.Lock()` and the unlock
+is deferred — what `runSchedule` (one atomic step per response) assumes -/
+theorem generated_handleResponse_atomic :
+    handleResponseAtomic = true ∧ handleResponseBeforeLock = [] := by decide
 
 open LinVerif.Generated.C12 in
 /-- the statement order `Ctx.handle` / `Ctx.absorb` mirror (as it is, or with the repair) -/
